@@ -192,9 +192,12 @@ def scan_items(src, m, lo, hi):
 
 def locate(src, m, locators):
     """resolve a locator path; returns (start, end) of the item in src"""
-    lo, hi = 0, len(src)
+    return locate_in(src, m, locators, 0, len(src))
+
+
+def locate_in(src, m, locators, lo, hi):
     found = None
-    for loc in locators:
+    for li, loc in enumerate(locators):
         loc = loc.strip()
         mo = re.match(r"(fn|struct|enum|trait|impl|type|const|mod|static)\b(.*)$", loc, re.S)
         if not mo:
@@ -214,6 +217,19 @@ def locate(src, m, locators):
             for (kw, name, s, e, bo) in scan_items(src, m, lo, hi):
                 if kw == "impl" and tight("impl" + rest) in tight(name):
                     cands.append((s, e, bo))
+        if len(cands) > 1 and li + 1 < len(locators):
+            # several impl blocks with the same header: the one that contains the rest of the path
+            ok = []
+            for (s, e, bo) in cands:
+                if bo is None:
+                    continue
+                try:
+                    sub = locate_in(src, m, locators[li + 1:], bo + 1, e - 1)
+                    ok.append(sub)
+                except Undecided:
+                    pass
+            if len(ok) == 1:
+                return ok[0]
         if len(cands) != 1:
             raise Undecided("LOST-ANCHOR: locator `%s` matched %d items" % (loc, len(cands)))
         s, e, bo = cands[0]
@@ -1060,6 +1076,7 @@ def build_unit(unit_path, repo=REPO):
             raise Undecided("ERASURE-MISMATCH in %s" % it.where())
         for (old, new) in renames:
             text = re.sub(r"\b%s\b" % re.escape(old), new, text)
+            it.log.append({"rule": "R1-rename", "where": it.where(), "before": old, "after": new})
         for (tag, chunk, line) in parts:
             pass
         it.generated = text
